@@ -47,6 +47,8 @@ pub mod plan;
 pub mod scheduler;
 pub mod util;
 pub mod vm;
+#[cfg(feature = "mmtk_verif")]
+pub mod verif;
 
 pub use crate::plan::{
     AllocationSemantics, BarrierSelector, Mutator, MutatorContext, ObjectQueue, Plan,
